@@ -1,5 +1,6 @@
 SPECIFICATION Spec
-CONSTANTS MaxLen = 8
+CONSTANTS NestDepth = 0
+          MaxLen = 8
           MaxFill = 4
           CoreFill = 0
           SimLens = {3, 4, 5, 6, 7, 8}
